@@ -143,6 +143,48 @@ func (p *DictPair) LookupValue(v uint64) (string, bool) {
 	return r.String(), true
 }
 
+// Alias is a name-indexed row whose name is not the canonical (value-indexed) name of its value.
+type Alias struct {
+	Table string
+	Name  string
+	Value uint64
+}
+
+// ExpectedAliases is the hand-written expectation for alias names — the oracle for "intended code point"
+// of names the value-indexed tables cannot vouch for.  Mirror of Lean `Dict.expectedAliases`; taken from
+// the registries the dicttls sources cite, NOT from the maps.  Used by the harness only to SPELL code
+// points by their alias in json_hello (alias=1); the comparison with the maps is done by the Lean side.
+var ExpectedAliases = []Alias{
+	// RFC 9345 / IANA ExtensionType 34: "delegated_credential" (dicttls keeps the older plural as canonical)
+	{"ExtType", "delegated_credential", 34},
+	// IANA TLS SignatureScheme 0x0202: "Reserved for backward compatibility" (dsa_sha1 of TLS 1.2)
+	{"SignatureScheme", "Reserved for backward compatibility", 0x0202},
+	// dicttls/authorization_data_formats.go ships "Unassigned": 0; the registry has no single code point
+	// for it — pinned to what the code documents so that a change is noticed
+	{"AuthorizationDataFormat", "Unassigned", 0},
+}
+
+// AliasSpelling returns the expected alias name of a code point, if the expectation table has one.
+func AliasSpelling(table string, v uint64) (string, bool) {
+	for _, a := range ExpectedAliases {
+		if a.Table == table && a.Value == v {
+			return a.Name, true
+		}
+	}
+	return "", false
+}
+
+// AliasRows ranges over the real name-indexed map and returns the rows that are aliases.
+func (p *DictPair) AliasRows() []Alias {
+	var out []Alias
+	for _, r := range p.NameRows() {
+		if c, ok := p.LookupValue(r.Value); !ok || c != r.Name {
+			out = append(out, Alias{p.Name, r.Name, r.Value})
+		}
+	}
+	return out
+}
+
 // PackName packs the UTF-8 bytes of a name into a natural number: the base-256 digits of the
 // bytes below a leading 1 (injective; Lean: Dict.packName).  Kernel evaluation over String
 // literals is ~40x slower than over Nat literals, hence this representation in Gen/Dict.lean.
